@@ -1,6 +1,23 @@
 # leaves of property C20 regenerated from /repo's text on every run
+_DM = 'io/fmriprep.py'
 LEAVES = [
-    # io/fmriprep.py: make_design_matrix — `dof = n_vols - dm.shape[1]`
-    dict(name='dmDof', file='io/fmriprep.py', func='make_design_matrix', kind='assign',
+    # make_design_matrix — `dof = n_vols - dm.shape[1]`
+    dict(name='dmDof', file=_DM, func='make_design_matrix', kind='assign',
          target='dof', count=1, params={'n_vols': 'Int', 'dm_shape_1': 'Int'}, ret='Int'),
+    # make_design_matrix — `dm = (dm - dm.mean(axis=0)) / (dm.max(axis=0) - dm.min(axis=0))`,
+    # one entry; the three column statistics are opaque calls that become parameters
+    dict(name='dmNormEntry', file=_DM, func='make_design_matrix', kind='assign',
+         target='dm', nth=2, count=3,
+         params={'dm': 'A', 'col_mean': 'A', 'col_max': 'A', 'col_min': 'A'}, ret='A',
+         opaque={'dm.mean(axis=0)': 'col_mean', 'dm.max(axis=0)': 'col_max',
+                 'dm.min(axis=0)': 'col_min'}),
+    # make_design_matrix — `hrf = hrf / hrf.max()` (peak scaling of the resampled response)
+    dict(name='hrfPeakScale', file=_DM, func='make_design_matrix', kind='assign',
+         target='hrf', nth=2, count=3, params={'hrf': 'A', 'peak': 'A'}, ret='A',
+         opaque={'hrf.max()': 'peak'}),
+    # SpmGlm.get_betas / get_residuals — `indx = self.reg_of_interest-1` (1-based -> 0-based)
+    dict(name='regIndexBetas', file='io/spm.py', func='get_betas', kind='assign',
+         target='indx', count=1, params={'self_reg_of_interest': 'Int'}, ret='Int'),
+    dict(name='regIndexResiduals', file='io/spm.py', func='get_residuals', kind='assign',
+         target='indx', count=1, params={'self_reg_of_interest': 'Int'}, ret='Int'),
 ]
